@@ -628,6 +628,17 @@ impl VideoState {
   }
 }
 
+/// Verification hooks (cfg(gb_dynarec_verif) only): entry points for harnesses that exercise one rendering stage.
+#[cfg(gb_dynarec_verif)]
+impl VideoState {
+  /// Build the object line cache for `line` and return it
+  pub fn verif_object_line(&mut self, line: u8, video_ram: &Box<[u8]>, oam: &Box<[u8]>) -> [u8; 176] {
+    self.current_line = line;
+    self.find_current_line_sprites(video_ram, oam);
+    self.object_line_cache
+  }
+}
+
 #[cfg(test)]
 mod tests {
   use crate::timing::ClockCycles;
